@@ -253,7 +253,8 @@ def main():
                 CellBoundaryEventHandler.send_event_time, CellBoundaryEventHandler.send_out_state,
                 cellsys.CuboidPeriodicCells.position_to_cell, cellsys.CuboidPeriodicCells.neighbor_cell)
     if chk.thorough:
-        grids = [((1.0,), (6,), 1, (2, 3, 4)), ((1.0, 2.0), (4, 5), 1, (2, 3)), ((1.0, 1.0), (3, 3), 1, (2, 3))]
+        # (three units on the 4 x 5 grid did not finish in 100 minutes on 16 cores: they are explored on the 3 x 3 grid)
+        grids = [((1.0,), (6,), 1, (2, 3, 4)), ((1.0, 2.0), (4, 5), 1, (2,)), ((1.0, 1.0), (3, 3), 1, (2, 3))]
     else:
         grids = [((1.0,), (6,), 1, (2, 3)), ((1.0, 2.0), (4, 5), 1, (2,))]
     chk.bound(grids=["%s / %s cells, N in %s" % (list(l), list(p), ns) for l, p, k, ns in grids],
